@@ -653,6 +653,21 @@ def ob_function_forms(Ne, nPg, dim):
     if np.shape(got) != want.shape or not np.array_equal(np.asarray(got), want):
         raise Refuted(f"np.add(matrix field, 1.0, where=(scalar field > 0), out=buffer) (Ne={Ne}, nPg={nPg}, dim={dim}): the mask is not applied point by point (max difference "
                       f"{np.abs(np.asarray(got) - want).max() if np.shape(got) == want.shape else 'shape'})", cex=dict(Ne=Ne, nPg=nPg, dim=dim), signature="function:where:value", replay=dict(confirmed=True))
+    # ... whatever the order and the kind of the operands (a constant first, a constant vector against a matrix field)
+    cv = cst(dim)
+    for what, f, ref in (("np.multiply(2.0, matrix field, where=mask, out=buffer)", lambda b_: np.multiply(2.0, Mw, where=(sw > 0), out=b_), 2.0 * np.asarray(Mw)),
+                         ("np.add(constant vector, matrix field, where=mask, out=buffer)", lambda b_: np.add(cv, Mw, where=(sw > 0), out=b_), cv + np.asarray(Mw)),
+                         ("np.subtract(matrix field, 1.0, where=mask, out=buffer)", lambda b_: np.subtract(Mw, 1.0, where=(sw > 0), out=b_), np.asarray(Mw) - 1.0)):
+        buf = FeArray.asfearray(np.full((Ne, nPg, dim, dim), -7.0))
+        try:
+            got = f(buf)
+        except Exception as ex:
+            raise Refuted(f"{what} raises {type(ex).__name__}: {ex}", cex=dict(Ne=Ne, nPg=nPg, dim=dim, call=what), signature="function:where:raises", replay=dict(confirmed=True))
+        want = np.where((np.asarray(sw) > 0)[:, :, None, None], ref, -7.0)
+        n += 1
+        if np.shape(got) != want.shape or not np.array_equal(np.asarray(got), want):
+            raise Refuted(f"{what} (Ne={Ne}, nPg={nPg}, dim={dim}): the mask is not applied point by point (max difference "
+                          f"{np.abs(np.asarray(got) - want).max() if np.shape(got) == want.shape else 'shape'})", cex=dict(Ne=Ne, nPg=nPg, dim=dim, call=what), signature="function:where:value", replay=dict(confirmed=True))
     # fields of different tensor extents joined along a tensor axis
     a2, b3 = fld(2), fld(dim)
     try:
@@ -684,8 +699,16 @@ def ob_function_forms(Ne, nPg, dim):
            ("M.transpose()", lambda: M.transpose(), False), ("M.transpose(0, 1, 3, 2)", lambda: M.transpose(0, 1, 3, 2), True), ("M.swapaxes(0, 1)", lambda: M.swapaxes(0, 1), False),
            ("np.moveaxis(M, 0, 1)", lambda: np.moveaxis(M, 0, 1), False), ("np.stack([M, M], axis=0)", lambda: np.stack([M, M], axis=0), False), ("np.stack([M, M], axis=-1)", lambda: np.stack([M, M], axis=-1), True),
            ("np.flip(M, 0)", lambda: np.flip(M, 0), False), ("np.roll(M, 1, 0)", lambda: np.roll(M, 1, 0), False), ("np.roll(M, 1, -1)", lambda: np.roll(M, 1, -1), True)]
+    from EasyFEA.FEM._linalg import Norm
+    red += [("np.sum(a=M, axis=-1)", lambda: np.sum(a=M, axis=-1), True), ("np.mean(a=M, axis=0)", lambda: np.mean(a=M, axis=0), False), ("np.max(a=M, axis=1)", lambda: np.max(a=M, axis=1), False),
+            ("np.linalg.norm(x=M, axis=-1)", lambda: np.linalg.norm(x=M, axis=-1), True), ("Norm(M, axis=0)", lambda: Norm(M, axis=0), False), ("Norm(M, axis=1)", lambda: Norm(M, axis=1), False),
+            ("Norm(M, axis=-1)", lambda: Norm(M, axis=-1), True), ("Norm(M, axis=(-2, -1))", lambda: Norm(M, axis=(-2, -1)), True), ("Norm(v)", lambda: Norm(v), False)]
     for what, f, keeps in red:
-        got = f()
+        try:
+            got = f()
+        except Exception as ex:
+            raise Refuted(f"{what} on a field (Ne={Ne}, nPg={nPg}, dim={dim}) raises {type(ex).__name__}: {str(ex)[:120]}", cex=dict(Ne=Ne, nPg=nPg, dim=dim, call=what), signature="function:reducer:raises",
+                          replay=dict(confirmed=True))
         n += 1
         if isinstance(got, FeArray) != keeps:
             raise Refuted(f"{what} on a matrix field (Ne={Ne}, nPg={nPg}, dim={dim}) returns {type(got).__name__} of shape {np.shape(got)}: the operation "
